@@ -136,7 +136,11 @@ def run_dense(case, acc, order):
                                 if thr is not None:
                                     kw['amplitude_threshold'] = thr
                                 try:
-                                    rec = m.get_template(t, channel_ids=expl, unwhiten=unwhiten, **kw)
+                                    if expl is not None:
+                                        kw['channel_ids'] = expl
+                                    if not unwhiten:
+                                        kw['unwhiten'] = False      # True is the default: left out
+                                    rec = m.get_template(t, **kw)
                                 except Exception as e:
                                     rec = e
                                 restricted = exp_set is not None and len(exp_set) < nc
